@@ -93,6 +93,7 @@ pub fn run(args: &Args) -> Report {
             cross.truncate(40);
         }
         edits.extend(cross);
+        edits.extend(crate::malformed::cross_spans());
         let n_combo = if thorough { 2000 } else { 60 };
         for _ in 0..n_combo {
             edits.push(Edit::Multi(vec![rng.pick(&groups).clone(), rng.pick(&leaf_edits).clone()]));
@@ -109,6 +110,10 @@ pub fn run(args: &Args) -> Report {
             let label = edit_label(&e);
             let class = edit_class(&e);
             let d = json!({"proof": h.name, "edit": label});
+            if worker.skips(&class) {
+                rep.inc("skipped.class_with_established_worker_deaths");
+                continue;
+            }
             worker.begin(idx - 1, &class, &d.to_string());
             if let Some(mp) = apply_edit(&h.proof, &base, &e) {
                 let text = serde_json::to_string(&mp).unwrap();
